@@ -3,6 +3,7 @@
   Property theorems only (helper lemmas are in NPModel.Refine.Fields).
 -/
 import NPModel.Refine.Fields
+import NPModel.Refine.FieldValues
 import NPModel.Refine.Samples
 namespace NP.C06
 open NP
@@ -37,6 +38,16 @@ theorem fill_field_lists_frame_condition {c c' : PCol α} {f ty : String} {value
   have h2 := fillFieldLists_chunks h
   have hv := All2_valid_eq (r := FieldSet f ty) (fun _ _ hr => hr.1) h2
   exact ⟨h2, isna_of_valid_eq hv, len_of_valid_eq hv⟩
+
+/-- **The edited field holds exactly the supplied values**: after `set_list_field` chunk `i`
+    holds, as field `f`, the `i`-th window of the supplied list array (`pa_array[sl]`), and the
+    flat view of `f` over the whole column is the flat view of the supplied list array — nothing
+    lost, duplicated or reordered, for any chunking. -/
+theorem edited_field_holds_supplied_values {c c' : PCol α} {f ty : String} {value : PList α} {keep : Bool}
+    (h : NArr.setListField c f ty value keep = .ok c') (hvl : value.rows.length = c.len) :
+    c'.chunks.map (fun s' => (s'.kid? f).map (·.list)) = (windows value c.chunks 0).map some ∧
+    (c'.chunks.flatMap fun s' => ((s'.kid? f).map (·.list.flatten)).getD []) = value.flatten :=
+  setListField_field_is_value h hvl
 
 /-- The edited field is exactly the supplied list array, the others are looked up unchanged. -/
 theorem upsert_reads_back (kids : List (PField α)) (k : PField α) :
